@@ -3,6 +3,7 @@ import Driver.Crdt
 import Driver.Fault
 import Driver.Events
 import Driver.Mvcc
+import Driver.Query
 
 partial def loop (h : IO.FS.Stream) (out : IO.FS.Stream) (f : List String → String) : IO Unit := do
   let line ← h.getLine
@@ -27,5 +28,6 @@ def main (args : List String) : IO UInt32 := do
   | ["fault"] => loop stdin stdout Driver.Fault.step; return 0
   | ["events"] => loopS stdin stdout Driver.Events.step ({} : Driver.Events.St); return 0
   | ["mvcc"] => loopS stdin stdout Driver.Mvcc.step ({} : Defra.Mvcc.DB); return 0
+  | ["query"] => loopS stdin stdout Driver.Query.step ({} : Driver.Query.St); return 0
   | ["crdt"] => loopS stdin stdout Driver.Crdt.step ({} : Driver.Crdt.World); return 0
   | _ => IO.eprintln "usage: drv <engine>"; return 2
